@@ -43,6 +43,14 @@ fn c06() -> Property {
                 cases_per_seed: 1,
             note: "the C01 pair workload judged by the frame-size and decodability models only",
             },
+            Variant {
+                name: "sasl-then-amqp-in-one-write",
+                weight: 1,
+                make: || Box::pin(scen::c19::run_pipelined_client()),
+                max_steps: 3_000_000,
+                cases_per_seed: 1,
+            note: "scripted client writes SASL header, sasl-init, AMQP header and open at once; the real listener (PLAIN) reads both layers from one arbitrarily partitioned stream",
+            },
         ],
         quick_runs: 20_000,
         thorough_runs: 2_000_000,
@@ -250,6 +258,14 @@ fn c19() -> Property {
                 cases_per_seed: 1,
                 note: "real client <-> real listener, equal or differing credentials and mechanisms, SASL skipped",
             },
+            Variant {
+                name: "pipelined-client-vs-listener",
+                weight: 1,
+                make: || Box::pin(scen::c19::run_pipelined_client()),
+                max_steps: 3_000_000,
+                cases_per_seed: 1,
+                note: "scripted client that sends sasl-init (PLAIN, right or wrong password), AMQP header and open without waiting",
+            },
         ],
         quick_runs: 3_000,
         thorough_runs: 200_000,
@@ -452,14 +468,24 @@ fn c11() -> Property {
     Property {
         id: "C11",
         level: "exploration",
-        variants: vec![Variant {
-            name: "pair-lifecycle-sequences",
-            weight: 1,
-            make: || Box::pin(scen::life::run_c11()),
-            max_steps: 3_000_000,
-            cases_per_seed: 1,
-            note: "real client <-> real listener, seeded begin/attach/send/detach/close/drop/end sequences",
-        }],
+        variants: vec![
+            Variant {
+                name: "pair-lifecycle-sequences",
+                weight: 4,
+                make: || Box::pin(scen::life::run_c11()),
+                max_steps: 3_000_000,
+                cases_per_seed: 1,
+                note: "real client <-> real listener, seeded begin/attach/send/detach/close/drop/end sequences",
+            },
+            Variant {
+                name: "resumed-link",
+                weight: 1,
+                make: || Box::pin(scen::c11r::run()),
+                max_steps: 3_000_000,
+                cases_per_seed: 1,
+                note: "real client <-> real listener: a sender link detached and attached again by resume / resume_on_session / detach_then_resume_on_session, with sibling links on both sessions",
+            },
+        ],
         quick_runs: 5_000,
         thorough_runs: 200_000,
         rule: "as C13's pair workload (sessions x link lifetimes x teardown kinds, names re-used after detach, duplicate names, concurrent attaches, single- and multi-frame deliveries produced by both splitting layers), judged on identifiers and routing; every run is non-trivial; distinct = distinct event-log hash",
